@@ -32,6 +32,9 @@ use std::path::PathBuf;
 // Plain std atomics / mutex: harness bookkeeping only, deliberately NOT scheduling points.
 use std::sync::atomic::{AtomicU64, Ordering};
 use std::sync::Mutex;
+
+use shuttle::sync::atomic::AtomicBool;
+use shuttle::sync::Arc;
 use std::time::Instant;
 
 use futures::channel::mpsc::{unbounded, UnboundedReceiver};
@@ -77,8 +80,14 @@ fn workload() {
     }
     // Distribute the sources over the producer threads.
     let mut per_thread: Vec<Vec<(usize, futures::channel::mpsc::UnboundedSender<(usize, u32)>)>> = (0..n_threads).map(|_| vec![]).collect();
+    // In the two-bucket mode the last source (second bucket) is held back by a thread of its own (see below).
+    let mut held_tx = None;
     for (i, tx) in senders.iter_mut().enumerate() {
-        per_thread[i % n_threads].push((i, tx.take().unwrap()));
+        if big && i == n_sources - 1 {
+            held_tx = tx.take();
+        } else {
+            per_thread[i % n_threads].push((i, tx.take().unwrap()));
+        }
     }
     let mut handles = vec![];
     for sources in per_thread {
@@ -103,12 +112,68 @@ fn workload() {
             // Dropping the senders closes the channels.
         }));
     }
+    // A source that is attached late. In the small mode: after the reader has been polled to the end of the first
+    // sources. In the two-bucket mode: while sources of the second bucket are still open - source 0 has said all it
+    // has to say (and closes), then a source of the second bucket speaks, then the late source is added; when the
+    // closure of source 0 has been processed by then, the late source re-uses its low key while the reader's current
+    // bucket is the second one.
+    let late_count: u32 = if rng.gen_bool(0.5) { rng.gen_range(1u32..=3) } else { 0 };
+    let hold_idx = n_sources - 1;
+    let staged = big && late_count > 0;
+    let mut counts = counts;
+    counts.push(late_count);
+    let zero_done = Arc::new(AtomicBool::new(false));
+    let (late_tx, late_rx) = unbounded::<(usize, u32)>();
+    if late_count > 0 {
+        handles.push(shuttle::thread::spawn(move || {
+            for k in 0..late_count {
+                late_tx.unbounded_send((n_sources, k)).expect("the reader is alive");
+                bump(&MESSAGES, 1);
+            }
+        }));
+    } else {
+        drop(late_tx);
+    }
+    if let Some(tx) = held_tx {
+        let zd = zero_done.clone();
+        let n = counts[hold_idx];
+        handles.push(shuttle::thread::spawn(move || {
+            while !zd.load(Ordering::SeqCst) {
+                shuttle::thread::yield_now();
+            }
+            for k in 0..n {
+                tx.unbounded_send((hold_idx, k)).expect("the reader is alive");
+                bump(&MESSAGES, 1);
+            }
+        }));
+    }
     let total: u32 = counts.iter().sum();
+    let counts_c = counts.clone();
     let consumer = shuttle::thread::spawn(move || {
-        let mut got: Vec<Vec<u32>> = vec![vec![]; n_sources];
+        let mut got: Vec<Vec<u32>> = vec![vec![]; n_sources + 1];
+        let mut late = Some(late_rx);
         shuttle::future::block_on(async {
+            if counts_c[0] == 0 {
+                zero_done.store(true, Ordering::SeqCst);
+            }
             while let Some((src, k)) = reader.next().await {
                 got[src].push(k);
+                if src == 0 && got[0].len() as u32 == counts_c[0] {
+                    zero_done.store(true, Ordering::SeqCst);
+                }
+                if staged && src == hold_idx && got[hold_idx].len() as u32 == counts_c[hold_idx] {
+                    if let Some(rx) = late.take() {
+                        reader.add(rx);
+                    }
+                }
+            }
+            if late_count > 0 {
+                if let Some(rx) = late.take() {
+                    reader.add(rx);
+                    while let Some((src, k)) = reader.next().await {
+                        got[src].push(k);
+                    }
+                }
             }
         });
         got
